@@ -653,6 +653,12 @@ def empty_like(x, dtype=None):
     return zeros_like(x, dtype)
 
 
+def linspace(start, stop, num=50, endpoint=True):
+    if _b.any(isinstance(a, Sym) for a in (start, stop, num)):
+        raise Inconclusive('linspace with symbolic arguments')
+    return _wrap(_np.linspace(start, stop, num, endpoint=endpoint))
+
+
 def eye(n, dtype=float):
     return _wrap(_np.eye(operator.index(n), dtype=_dt(dtype)))
 
@@ -1199,7 +1205,12 @@ def sort(x, axis=-1, kind=None):
     return x[argsort(x)]
 
 
-def unique(x, return_counts=False, return_index=False, return_inverse=False):
+def unique(x, return_counts=False, return_index=False, return_inverse=False, axis=None):
+    if axis is not None:
+        x = asarray(x)
+        if not x.is_conc():
+            raise Inconclusive('unique along an axis of a symbolic array')
+        return _wrap(_np.unique(x.real(), axis=axis))
     x = asarray(x).ravel()
     if x.is_conc():
         r = _np.unique(x.real(), return_counts=return_counts, return_index=return_index,
